@@ -32,6 +32,7 @@ struct Args {
     no_evidence: bool,
     part: Option<String>,
     dump_seeds: Option<(PathBuf, usize)>,
+    fuzz_executed: Option<u64>,
 }
 
 fn parse_args() -> Result<Args, String> {
@@ -47,6 +48,7 @@ fn parse_args() -> Result<Args, String> {
         no_evidence: false,
         part: None,
         dump_seeds: None,
+        fuzz_executed: None,
     };
     let mut it = std::env::args().skip(1);
     while let Some(x) = it.next() {
@@ -64,6 +66,15 @@ fn parse_args() -> Result<Args, String> {
                 let d = PathBuf::from(it.next().ok_or("--dump-seeds needs a dir")?);
                 let n = it.next().ok_or("--dump-seeds needs a count")?.parse().map_err(|_| "bad count")?;
                 a.dump_seeds = Some((d, n));
+            }
+            "--fuzz-executed" => a.fuzz_executed = it.next().and_then(|v| v.trim().parse().ok()),
+            "--tape-len" => {
+                let id = a.id.clone();
+                match checks::prop(&id) {
+                    Some(p) => println!("{}", p.tape_len),
+                    None => std::process::exit(2),
+                }
+                std::process::exit(0);
             }
             "--list" => {
                 for p in checks::props() {
@@ -533,7 +544,8 @@ fn main() {
                 "excluded_known": total.excluded_known,
                 "engines": engines,
                 "known_findings_reproduced": known_lines,
-                "cipher_configs": ctx.suites.len(),
+                "cipher_configs": ctx.suites().count(),
+                "libfuzzer_executions": args.fuzz_executed.unwrap_or(0),
                 "zeroize_build": vp_core::ZEROIZE,
             },
             "assumptions": p.assumptions,
